@@ -103,6 +103,7 @@ static void set_lingers(const char *list);
 static __thread int tid_index;
 static int tid_next;
 static long fake_rss_kib;
+static unsigned long long cpu_readings = 0;
 
 static void init_once(void) {
     if (ready) return;
@@ -294,6 +295,7 @@ static void forkserver(char **argv) {
                 clock_owned = have_clock; clock_base = p_clock; clock_step = p_step; clock_reads = 0;
                 fake_pid = p_pid;
                 fake_rss_kib = p_rss;
+                cpu_readings = 0;
                 tid_next = 0;
                 tid_index = -1;
                 set_stalls(stall_list);
@@ -690,6 +692,103 @@ int open(const char *path, int flags, ...) {
         if (fd >= 0) return fd;
     }
     return (int)syscall(SYS_openat, AT_FDCWD, path, flags, mode);
+}
+
+/* Resource accounting and machine-wide figures that reach a process through libc calls rather
+   than files: getrusage (peak resident set - which on Linux survives exec, so it is the
+   *launcher's* - CPU time, page faults, context switches), times, clock, sysinfo, sched_getcpu.
+   All follow the plan: memory figures follow GRAMSIM_RSS, CPU time advances with every reading at
+   the clock plan's rate (as /proc/self/stat does), counters and the processor number come from
+   the key. (S68) */
+#include <sys/resource.h>
+#include <sys/times.h>
+#include <sys/sysinfo.h>
+
+static unsigned long long cpu_elapsed_ns(void) {
+    unsigned long long step = clock_owned ? clock_step : 1000000ULL;
+    return step * (++cpu_readings);
+}
+
+int getrusage(int who, struct rusage *ru) {
+    init_once();
+    long r = syscall(SYS_getrusage, who, ru);
+    if (r != 0 || !ru || !fake_pid) return (int)r;
+    unsigned long long ns = cpu_elapsed_ns();
+    ru->ru_utime.tv_sec = (time_t)(ns / 1000000000ULL);
+    ru->ru_utime.tv_usec = (suseconds_t)(ns % 1000000000ULL / 1000ULL);
+    ru->ru_stime = ru->ru_utime;
+    if (fake_rss_kib > 0) ru->ru_maxrss = fake_rss_kib;
+    if (key_len >= 16) {
+        ru->ru_minflt = 100 + 37L * key_bytes[6];
+        ru->ru_majflt = key_bytes[7] % 4;
+        ru->ru_nvcsw = key_bytes[8];
+        ru->ru_nivcsw = key_bytes[9];
+        ru->ru_inblock = 8L * (key_bytes[10] % 8);
+        ru->ru_oublock = 0;
+    }
+    log_mark("P\n");
+    return 0;
+}
+
+clock_t times(struct tms *buf) {
+    init_once();
+    if (!fake_pid) return (clock_t)syscall(SYS_times, buf);
+    unsigned long long ticks = cpu_elapsed_ns() / 10000000ULL;
+    if (buf) {
+        buf->tms_utime = (clock_t)ticks;
+        buf->tms_stime = (clock_t)ticks;
+        buf->tms_cutime = 0;
+        buf->tms_cstime = 0;
+    }
+    log_mark("T\n");
+    return (clock_t)((clock_owned ? clock_base % 10000000ULL : 1000ULL) * 100ULL + ticks);
+}
+
+clock_t clock(void) {
+    init_once();
+    if (!fake_pid) {
+        struct timespec ts;
+        if (syscall(SYS_clock_gettime, CLOCK_PROCESS_CPUTIME_ID, &ts) != 0) return (clock_t)-1;
+        return (clock_t)(ts.tv_sec * 1000000L + ts.tv_nsec / 1000L);
+    }
+    log_mark("T\n");
+    return (clock_t)(cpu_elapsed_ns() / 1000ULL);
+}
+
+int sysinfo(struct sysinfo *info) {
+    init_once();
+    long r = syscall(SYS_sysinfo, info);
+    if (r != 0 || !info || !fake_pid) return (int)r;
+    unsigned long unit = info->mem_unit ? info->mem_unit : 1;
+    unsigned long long total_kib = 64ULL << 20;
+    unsigned long long avail_kib = fake_rss_kib > 0 && (unsigned long long)fake_rss_kib < total_kib ? total_kib - (unsigned long long)fake_rss_kib * 16ULL % total_kib : 1024ULL;
+    if (fake_rss_kib >= 2000000) avail_kib = 2048ULL;
+    info->uptime = (long)(clock_owned ? clock_base % 10000000ULL : 1000ULL);
+    info->totalram = (unsigned long)(total_kib * 1024ULL / unit);
+    info->freeram = (unsigned long)(avail_kib * 1024ULL / unit);
+    info->bufferram = 0;
+    info->sharedram = 0;
+    info->totalswap = 0;
+    info->freeswap = 0;
+    if (key_len >= 16) {
+        info->loads[0] = (unsigned long)(key_bytes[0] % 16) << 16;
+        info->loads[1] = 1UL << 15;
+        info->loads[2] = 1UL << 14;
+        info->procs = (unsigned short)(100 + key_bytes[2]);
+    }
+    log_mark("P\n");
+    return 0;
+}
+
+int sched_getcpu(void) {
+    init_once();
+    if (!fake_pid || key_len < 16) {
+        unsigned cpu = 0;
+        if (syscall(SYS_getcpu, &cpu, NULL, NULL) != 0) return -1;
+        return (int)cpu;
+    }
+    log_mark("P\n");
+    return key_bytes[5] % 16;
 }
 
 /* Cycle counter (RDTSC): not owned. prctl(PR_SET_TSC, PR_TSC_SIGSEGV) is accepted in this VM but
